@@ -624,7 +624,13 @@ def r3(ctx):
             ret = returns(f.node)
             ok = ok and len(ret) == 1 and U(ret[0].value) == U(lp.body[0].value.func.value)
             sc = src
-            ok = ok and U(kwargs(sc).get("plates")) == "plates_to_score" and U(kwargs(sc).get("rng")) == "rng"
+            # the scored dict by role: the local every definition of which is the {plate id: plate} comprehension judged by R2
+            pk = kwargs(sc).get("plates")
+            dict_locals = {n.targets[0].id for n in walk_own(f.node) if isinstance(n, ast.Assign) and len(n.targets) == 1 and isinstance(n.targets[0], ast.Name)
+                           and isinstance(n.value, (ast.DictComp, ast.Dict))}
+            other_defs = {n.targets[0].id for n in walk_own(f.node) if isinstance(n, ast.Assign) and len(n.targets) == 1 and isinstance(n.targets[0], ast.Name)
+                          and not isinstance(n.value, (ast.DictComp, ast.Dict))}
+            ok = ok and isinstance(pk, ast.Name) and pk.id in dict_locals - other_defs and U(kwargs(sc).get("rng")) == "rng"
     ctx.check("R3", f"{f.site()}::every-score-stored", ok, "every (id, score) returned by the scorer is added to the returned holder",
               "not every (plate id, score) pair the scorer returns is stored unconditionally in the returned holder")
     f = ctx.fn("scoring.main.ChunkedScoresHolder.add_score")
